@@ -33,6 +33,12 @@ CHECKS = {
         "technique": SMT + "; whole-pipeline execution with symbolic boundary field",
         "design_ref": "DESIGN.md section 5 (C01)",
     },
+    "C12": {
+        "text": "Bounded symbolic check: every entry of every operand array is a fresh symbolic real; the real FeArray array protocols, matmul/dot/ddot/T, reducers, reshape, integrate, broadcast and Det/Inv/Trace/Transpose/TensorProd are executed and every result entry is compared with an independent explicit-loop tensor operation on the [e,p] slices (identities for all entry values), for all (Ne,nPg,dim) in {1,2,3}^3 - which contains every shape collision and size-1 axis - ranks 0-4 and all operand kinds; result types are checked against the 'FeArray iff (Ne,nPg) axes survive' rule; CrossHair decides the pure-Python _KeepsFeAxes for all axis tuples.",
+        "note": "Trusted: Sym arithmetic (identities closed by exact normal form), CrossHair/z3 for the integer kernel, the explicit-loop oracles. Extents above 3, LAPACK det/inv for dim>3 and non-sum reducers' values are outside.",
+        "technique": "symbolic execution of the real code on symbolic reals (exact normal form identities) + CrossHair/z3 for the pure-Python axis kernel",
+        "design_ref": "DESIGN.md section 5 (C12)",
+    },
 }
 
 NOT_APPLICABLE = {
